@@ -10,6 +10,21 @@ import vlib
 from vlib import hexs
 
 NEED_BIN = False
+MANIFEST_ENTRY = {
+    "technique": "Coq proof (induction over the text) of span tiling, line/column and offset preservation for an executable "
+                 "lexer model driven by the token table regenerated from token.rs; model/implementation correspondence on "
+                 "generated texts; direct position checks on implementation tokens, identifiers and diagnostics",
+    "text": "Theorems for every text (no bound): lexer items tile the preprocessed text from offset 0 with adjacent, non-empty "
+            "spans on character boundaries whose text is the slice; line/column are the line feeds before / bytes after the "
+            "last line feed of the span start; OSCAT blanking keeps every byte offset and line break; the synthetic ';' has "
+            "empty text and the next token's position. The theorems are about coq/Model/Lexer.v, tied to lexer.rs/token.rs/"
+            "preprocessor.rs/xform_tokens.rs by the regenerated token table and by comparing model and tokenize_program "
+            "token-for-token (kind, span, line, column) on every generated text. Identifier spans, file ids and diagnostic "
+            "labels are checked on the implementation only (searched, not proved).",
+    "note": "Trusted: Coq kernel (vm_compute for finite-table obligations), translator, ExtrOcamlBasic extraction + OCaml driver, "
+            "Rust harness. logos is modelled (maximal munch + priorities + no-backtrack out of an unclosed comment), validated by "
+            "correspondence. No axioms.",
+}
 TRUSTED = [
     "Coq 8.16.1 kernel (coqc; vm_compute used for finite table obligations and the Example)",
     "no axioms: every theorem of Properties/C05.v is closed under the global context",
